@@ -196,6 +196,46 @@ pub fn reinterpretation_cases() -> Vec<CorpusCase> {
     v
 }
 
+/// (i) Payload sizes on both sides of the kernel's pipe and page boundaries through every construct that
+/// moves a value through a descriptor: here-strings, here-documents, process substitutions, pipelines from
+/// builtins, command substitutions. A size must never decide whether the shell finishes.
+pub fn size_cases() -> Vec<CorpusCase> {
+    const SIZES: &[usize] = &[4095, 4096, 4097, 8192, 16384, 65535, 65536, 65537, 131072];
+    const MOVERS: &[(&str, &str)] = &[
+        ("herestring-external", "vcons <<<\"$x\""),
+        ("herestring-pipeline", "vcat <<<\"$x\" | vcons"),
+        ("herestring-read", "read -r -d '' y <<<\"$x\"; echo ${#y}"),
+        ("herestring-function", "f() { vcons; }; f <<<\"$x\""),
+        ("herestring-builtin-loop", "while IFS= read -r l; do :; done <<<\"$x\"; echo done"),
+        ("heredoc-external", "vcons <<EOF\n$x\nEOF"),
+        ("heredoc-quoted", "vcons <<'EOF'\n@BODY@\nEOF"),
+        ("procsub-in", "vcons < <(printf '%s' \"$x\")"),
+        ("builtin-pipeline", "printf '%s' \"$x\" | vcons"),
+        ("cmdsub-builtin", "y=$(printf '%s' \"$x\"); echo ${#y}"),
+        ("cmdsub-echo", "y=$(echo \"$x\"); echo ${#y}"),
+        ("length", "echo ${#x}"),
+    ];
+    let mut v = vec![];
+    for n in SIZES {
+        for (mn, m) in MOVERS {
+            let text = if m.contains("@BODY@") {
+                // a literal body of exactly n bytes: lines of 63 characters + newline
+                let mut body = String::new();
+                while body.len() + 64 <= *n {
+                    body.push_str(&"b".repeat(63));
+                    body.push('\n');
+                }
+                body.push_str(&"c".repeat(*n - body.len()));
+                m.replace("@BODY@", &body)
+            } else {
+                format!("x=$(vprod {n}; echo x); x=${{x%x}}\n{m}")
+            };
+            v.push(CorpusCase { text, tags: vec!["sizes".into(), format!("size:{n}"), format!("mover:{mn}")] });
+        }
+    }
+    v
+}
+
 fn input_tags(s: &str, extra: &[String]) -> Vec<String> {
     let mut t: Vec<String> = extra.to_vec();
     if s.chars().filter(|c| c.is_ascii_digit()).count() >= 19 {
@@ -245,6 +285,7 @@ pub fn run(tier: Tier, _replay: Option<Value>) -> ! {
     };
     let mut corpus_all = corpus_all;
     corpus_all.extend(reinterpretation_cases());
+    corpus_all.extend(size_cases());
     // The phases are independent and mostly wait on wall-clock caps: the bash pre-pass, the in-process
     // execution and the real-binary runs proceed in the background while the parser/editor passes run.
     let exec_cases: Vec<&CorpusCase> = corpus_all.iter().filter(|c| c.text.len() <= 150_000).collect();
@@ -290,7 +331,7 @@ pub fn run(tier: Tier, _replay: Option<Value>) -> ! {
     // ---- corpus through the parser entry points and the line-editor entry points
     rep.set("corpus_cases", corpus_all.len() as u64);
     for (mode, what, chunk) in [("parse", "corpus-parse", 100usize), ("editor", "editor", 25usize)] {
-        let lines: Vec<&CorpusCase> = corpus_all.iter().filter(|c| if mode == "parse" { c.text.len() <= 5000 } else { c.text.len() <= 200 && !c.tags.iter().any(|t| t == "reinterpret") }).collect();
+        let lines: Vec<&CorpusCase> = corpus_all.iter().filter(|c| if mode == "parse" { c.text.len() <= 5000 } else { c.text.len() <= 200 && !c.tags.iter().any(|t| t == "reinterpret" || t == "sizes") }).collect();
         // the editor pass takes every cursor position (a completion each): at the quick tier it covers the
         // default templates, the nestings and three boundary values per slot
         let lines: Vec<&CorpusCase> = if mode == "editor" && tier == Tier::Quick {
@@ -351,6 +392,12 @@ pub fn run(tier: Tier, _replay: Option<Value>) -> ! {
             }
             None => {
                 rep.observe(&format!("{}|{}", obs.status, obs.err.is_empty()));
+                // the size family also says what must come out: the same bytes (length + checksum) as in bash
+                if c.tags.iter().any(|t| t == "sizes") && obs.out != b.out_str() {
+                    let mut tags = c.tags.clone();
+                    tags.push("size-output".into());
+                    rep.fail(Failure { case: crate::engine::report::truncate(&c.text, 300), tags, expected: crate::engine::report::truncate(&b.out_str(), 120), observed: crate::engine::report::truncate(&obs.out, 120), oracle: "bash".into() });
+                }
                 // invalid input must produce a diagnostic and a failure status
                 let bash_syntax = b.status == 2 && b.err_str().contains("syntax error");
                 if bash_syntax && (obs.status == 0 || obs.err.is_empty()) && obs.out.is_empty() && b.stdout.is_empty() {
@@ -408,7 +455,7 @@ pub fn run(tier: Tier, _replay: Option<Value>) -> ! {
         rep.set("env_startup_runs", er.len() as u64);
     }
     rep.rule = format!(
-        "(a) all strings over the {}-symbol alphabet with <= {max_len} symbols through tokenizer (3 option sets), program parser, word, brace, arithmetic, pattern, prompt, parameter and here-doc parsers; (b)-(d) {} construct templates x {} boundary values (single{}), token mutations (deviation bound {}), nestings of {} constructs and ordered pairs to depth 64 — parsed, executed in-process via run_script / run_dash_c_command, and (templates, nestings) by the real binary on file/-c/stdin; (f) completion at every cursor and prompt expansion; (h) the real binary started with each of 38 environment variables set to each boundary value; (g) all pairs of 16 self-/cross-referencing values for the names a, b under plain/integer/array/nameref set-ups read through 16 arithmetic, subscript and indirection entry points, and all pairs of 7 alias bodies; non-trivial = inputs that parse / scripts bash finishes",
+        "(a) all strings over the {}-symbol alphabet with <= {max_len} symbols through tokenizer (3 option sets), program parser, word, brace, arithmetic, pattern, prompt, parameter and here-doc parsers; (b)-(d) {} construct templates x {} boundary values (single{}), token mutations (deviation bound {}), nestings of {} constructs and ordered pairs to depth 64 — parsed, executed in-process via run_script / run_dash_c_command, and (templates, nestings) by the real binary on file/-c/stdin; (f) completion at every cursor and prompt expansion; (i) 9 payload sizes around the page and pipe capacities x 12 constructs that move a value through a descriptor; (h) the real binary started with each of 38 environment variables set to each boundary value; (g) all pairs of 16 self-/cross-referencing values for the names a, b under plain/integer/array/nameref set-ups read through 16 arithmetic, subscript and indirection entry points, and all pairs of 7 alias bodies; non-trivial = inputs that parse / scripts bash finishes",
         SIGMA1.len(),
         corpus::TEMPLATES.len(),
         corpus::BOUNDARY.len() + 1,
